@@ -108,4 +108,19 @@ func init() {
 			"A-key: content keys (uninterpreted ckey) identify byte-string contents; bytes.Equal and map lookups by string(name) are expressed through them",
 		},
 	})
+	registerProp(&PropSpec{
+		ID:       "C07",
+		Units: []string{
+			modPath + "/json.(*Minifier).Minify",
+		},
+		Bounded: []BoundedUnit{
+			{Harness: modPath + ".specHarnessJSONNumber", For: modPath + ".Number", QuickN: 6, ThoroughN: 8,
+				What: "every RFC 8259 number lexeme: Number(x,0) plus the leading-zero repair is a JSON number of exactly the same value"},
+		},
+		Notes: []string{
+			"per-iteration (two-state) contract of the token loop of the real json.(*Minifier).Minify over an abstract token stream: skipComma bookkeeping at every back edge, ',' written exactly when the previous token did not open a container and the parser state is ObjectKey/Array, ':' for ObjectValue, no separator otherwise, the token text is the last write of the iteration, KeepNumbers => Number is not called, a leading '.' after Number is preceded by the write of \"0\" or \"-0\"; end of input: result nil only after a successful zero-length probe write that is the last write",
+			"A-dep: the dependency's parser (State/Next/Err) is an abstract event stream delivering RFC 8259 grammar events; that re-inserting ','/':' from parser state reproduces the same nesting for EVERY token sequence is an induction over the dependency's grammar and is not decided; duplicate-key order and 'never longer than the input' are not decided",
+			"minify.Number is used through its contract (C08: shape clause proved only for the non-print returns, otherwise bounded-verified)",
+		},
+	})
 }
